@@ -88,7 +88,7 @@ func TestC01_CrashPointRecovery(t *testing.T) {
 	for _, u := range users {
 		accts = append(accts, u.Address)
 	}
-	harn.Check(t, 10, 160, func(t *rapid.T) {
+	harn.Check(t, 10, 120, func(t *rapid.T) {
 		nBlocks := rapid.IntRange(2, 6).Draw(t, "blocks")
 		plan := make([][]c01Tx, nBlocks)
 		for i := range plan {
